@@ -604,7 +604,7 @@ def gen_reads(rng, lib, n):
     for _ in range(n):
         m = rng.choice(ms)
         s = rng.choice(m["samples"])
-        kind = rng.choice(["canon", "canon", "canon", "pmis", "pmis", "pover", "tagerr", "tagerr", "chimera", "chimera", "chimera2", "chimera2", "partial", "noprimer", "short", "flush", "cross", "nested"])
+        kind = rng.choice(["canon", "canon", "canon", "pmis", "pmis", "pover", "tagerr", "tagerr", "chimera", "chimera", "chimera2", "chimera2", "partial", "noprimer", "short", "flush", "cross", "nested", "selfclose", "selfclose"])
         pind = bool(m["find"] or m["rind"])
         fl, fr = rseq(rng, rng.choice([0, 0, 1, 3, 10])), rseq(rng, rng.choice([0, 0, 1, 3, 10]))
         amps = []
@@ -671,6 +671,21 @@ def gen_reads(rng, lib, n):
             c1 = rng.choice([inf["left"], inf["left"], 0]); c2 = rng.choice([inf["right"], inf["right"], 0])
             body = a[c1:len(a) - c2]; fl = fr = ""
             kind = "short"
+        elif kind == "selfclose":
+            # a primer hit followed by the complement of THE SAME primer (F ... cF, or R ... cR), the tags of a declared pair around
+            # them, optionally behind a first site of the other primer (R ... F ... cF): a hit may only be closed by the complementary
+            # hit of the OTHER primer of its marker - here nothing may be assigned to the sample
+            a, inf = amplicon(rng, m, s)
+            pre, post = a[:inf["pf_at"]], a[inf["pf_at"] + len(inf["pf"]) + len(inf["bar"]) + len(inf["pr"]):]
+            if rng.random() < 0.5:
+                pinst = mutate_primer(rng, m["fwd"], 0)                             # (ambiguity codes of the primer instantiated)
+                core = pre + pinst + inf["bar"] + rc(pinst) + post                  # F bar cF between the tags of s
+                lead = mutate_primer(rng, m["rev"], 0)
+            else:
+                pinst = mutate_primer(rng, m["rev"], 0)
+                core = pre + pinst + inf["bar"] + rc(pinst) + post                  # R bar cR
+                lead = mutate_primer(rng, m["fwd"], 0)
+            body = (lead + rseq(rng, rng.choice([3, 12, 30])) if rng.random() < 0.6 else "") + core
         elif kind == "nested":                      # +j ... +i ... -j : the complementary hit of ANOTHER marker must not close the amplicon
             m2 = rng.choice(ms)
             a, inf = amplicon(rng, m, s); a2, inf2 = amplicon(rng, m2, rng.choice(m2["samples"]))
